@@ -24,13 +24,17 @@ class C11(Oracle):
         p = self.R.S.get("preempt")
         return p[nid - 1] if p else False
 
+    def prio(self, ind):
+        """priority of the customer's CURRENT class according to the user's mapping (not the engine's cached attribute)"""
+        return (self.R.S.get("prio") or {}).get(ind.customer_class, 0)
+
     def micro(self, ev):
         k = ev[2]
         R = self.R
         if k == "att":
             nid, iid = ev[3], ev[5]
             c = R.log.last_cust
-            self.serv.setdefault(nid, {})[iid] = (c.priority_class, R.t, ev[0])
+            self.serv.setdefault(nid, {})[iid] = (self.prio(c), R.t, ev[0])
         elif k == "det":
             nid, iid = ev[3], ev[5]
             sv = self.serv.setdefault(nid, {})
@@ -59,12 +63,13 @@ class C11(Oracle):
             worst_served = None
             best_waiting = None
             for i in R.inds(nd):
+                pr = self.prio(i)
                 if i.server:
-                    if worst_served is None or i.priority_class > worst_served[0]:
-                        worst_served = (i.priority_class, i.id_number)
+                    if worst_served is None or pr > worst_served[0]:
+                        worst_served = (pr, i.id_number)
                 else:
-                    if best_waiting is None or i.priority_class < best_waiting[0]:
-                        best_waiting = (i.priority_class, i.id_number)
+                    if best_waiting is None or pr < best_waiting[0]:
+                        best_waiting = (pr, i.id_number)
             if worst_served and best_waiting and best_waiting[0] < worst_served[0]:
                 self.fail("priority-inversion", "node %s at %r: ind %s of priority %s waits while ind %s of priority %s is in service" % (
                     nd.id_number, R.t, best_waiting[1], best_waiting[0], worst_served[1], worst_served[0]))
